@@ -436,11 +436,18 @@ func (s *State) SwallowedBySibling(reqCtx map[string]any, idx []int) bool {
 	for _, i := range idx {
 		t := s.Tuples[i]
 		found := false
-		for _, j := range s.byOR[t.Obj+"#"+t.Rel] {
-			if j == i {
+		for j, u := range s.Tuples {
+			if j == i || u.Rel != t.Rel || ObjType(u.Obj) != ObjType(t.Obj) {
 				continue
 			}
-			u := s.Tuples[j]
+			// forward lookup group: same object#relation; reverse lookup group (object-ordered
+			// ReadStartingWithUser): same relation and object type, same user or that user type's wildcard
+			sameObj := u.Obj == t.Obj
+			ut, _, _ := SplitUser(t.User)
+			sameUser := u.User == t.User || u.User == ut+":*" || t.User == ObjType(UserObject(u.User))+":*"
+			if !sameObj && !sameUser {
+				continue
+			}
 			if s.M.ValidForRead(u) && s.M.EvalCond(u, reqCtx) == CondSat {
 				found = true
 			}
